@@ -1,7 +1,7 @@
 //! Single-game protocols (C07): Mindustry, Savage 2, FFOW, The Ship, Battalion 1944, Eco.
 use crate::canon::*;
 use crate::net::*;
-use gamedig::games::{battalion1944, ffow, mindustry, savage2, theship};
+use gamedig::games::{battalion1944, eco, ffow, mindustry, savage2, theship};
 
 pub fn entries() -> Vec<(&'static str, crate::EntryFn)> {
     vec![
@@ -15,6 +15,7 @@ pub fn entries() -> Vec<(&'static str, crate::EntryFn)> {
         ("theship_dp", entry_theship_dp),
         ("battalion", entry_battalion),
         ("battalion_dp", entry_battalion_dp),
+        ("eco", entry_eco),
     ]
 }
 
@@ -263,3 +264,85 @@ fn battalion_with(args: &[&str], default_port: bool) -> String {
 
 fn entry_battalion(args: &[&str]) -> String { battalion_with(args, false) }
 fn entry_battalion_dp(args: &[&str]) -> String { battalion_with(args, true) }
+
+// ---------------------------------------------------------------- Eco (the pure part: serde + From<Root>)
+
+fn show_eco(r: &eco::Response) -> String {
+    format!(
+        "E{{{}}}",
+        [
+            show_bool(r.external),
+            r.port.to_string(),
+            r.query_port.to_string(),
+            show_bool(r.is_lan),
+            show_str(&r.description),
+            show_str(&r.description_detailed),
+            show_str(&r.description_economy),
+            show_str(&r.category),
+            r.players_online.to_string(),
+            r.players_maximum.to_string(),
+            show_list(&r.players, |p| show_str(&p.name)),
+            show_bool(r.admin_online),
+            r.time_since_start.to_bits().to_string(),
+            r.time_left.to_bits().to_string(),
+            r.animals.to_string(),
+            r.plants.to_string(),
+            r.laws.to_string(),
+            show_str(&r.world_size),
+            show_str(&r.game_version),
+            show_str(&r.skill_specialization_setting),
+            show_str(&r.language),
+            show_bool(r.has_password),
+            show_bool(r.has_meteor),
+            show_str(&r.distribution_station_items),
+            show_str(&r.playtimes),
+            show_str(&r.discord_address),
+            show_bool(r.is_paused),
+            r.active_and_online_players.to_string(),
+            r.peak_active_players.to_string(),
+            r.max_active_players.to_string(),
+            r.shelf_life_multiplier.to_bits().to_string(),
+            r.exhaustion_after_hours.to_bits().to_string(),
+            show_bool(r.is_limiting_hours),
+            crate::valve::show_map(&r.server_achievements_dict),
+            show_str(&r.relay_address),
+            show_str(&r.access),
+            show_str(&r.connect),
+        ]
+        .join(";")
+    )
+}
+
+/// `eco <port (unused)> <retries (unused)> <script>`: the document is the first delivery of the first
+/// connection and is handed to the code the HTTP client runs on the body (`serde_json::from_reader::<Root>`, whose
+/// errors the client maps to `ProtocolFormat`), then to `Response::from`.  No socket is involved; a refused
+/// connection, no delivery or a silence stand for a request that could not be made (`PacketSend`).
+fn entry_eco(args: &[&str]) -> String {
+    if args.len() < 3 {
+        return "bad-case".into();
+    }
+    let (Some(_port), Some(_r), Some(script)) =
+        (args[0].parse::<u16>().ok(), args[1].parse::<usize>().ok(), parse_net_args(&args[2 ..]))
+    else {
+        return "bad-case".into();
+    };
+    use gamedig::verif_hook::{ConnScript, Delivery};
+    let doc = match script.conns.first() {
+        Some(ConnScript::Open(ds)) => {
+            match ds.first() {
+                Some(Delivery::Data(d)) => Some(d.clone()),
+                _ => None,
+            }
+        }
+        _ => None,
+    };
+    let res: gamedig::GDResult<eco::Response> = match doc {
+        None => Err(gamedig::GDErrorKind::PacketSend.into()),
+        Some(d) => {
+            serde_json::from_reader::<_, eco::Root>(&d[..])
+                .map(eco::Response::from)
+                .map_err(|e| gamedig::GDErrorKind::ProtocolFormat.context(e))
+        }
+    };
+    format!("{} ;;  ;; A0/0", show_res(&res, show_eco))
+}
